@@ -92,7 +92,14 @@ fn script_err(kind: &str, which: &str) -> BoxError {
     if which == "sigerr" {
         Box::new(sig_error(kind, PROVIDER_MSG))
     } else {
-        Box::new(ForeignError)
+        // foreign error types: a custom error, or std::io::Error of a "transient" kind
+        match kind {
+            "io_timedout" => Box::new(std::io::Error::new(std::io::ErrorKind::TimedOut, "timed out")),
+            "io_interrupted" => Box::new(std::io::Error::new(std::io::ErrorKind::Interrupted, "interrupted")),
+            "io_wouldblock" => Box::new(std::io::Error::new(std::io::ErrorKind::WouldBlock, "would block")),
+            "io_reset" => Box::new(std::io::Error::new(std::io::ErrorKind::ConnectionReset, "reset")),
+            _ => Box::new(ForeignError),
+        }
     }
 }
 
@@ -502,19 +509,27 @@ pub fn build(case: &Value, oracle: &mut Oracle) -> Built {
         .unwrap_or_default();
     let mut uri = get_bytes(case, "uri");
     if let Some(sign) = case.get("sign").filter(|v| v.is_object()) {
-        let payload_hex = oracle.sha_hex(&get_bytes(sign, "payload"));
+        // "payloadhex": a signer that takes the payload hash from somewhere else than the body (literal)
+        let payload_hex = match sign.get("payloadhex") {
+            Some(v) if v.is_array() && !bytes_of(v).is_empty() => bytes_of(v),
+            _ => oracle.sha_hex(&get_bytes(sign, "payload")),
+        };
         let mut creq = get_bytes(sign, "creqPre");
         creq.extend_from_slice(&payload_hex);
         let creq_hex = oracle.sha_hex(&creq);
         let mut sts = get_bytes(sign, "stsPre");
         sts.extend_from_slice(&creq_hex);
-        let sig = oracle.sig_hex(
-            &get_bytes(sign, "secret"),
-            &get_bytes(sign, "kdate"),
-            &get_bytes(sign, "region"),
-            &get_bytes(sign, "service"),
-            &sts,
-        );
+        let sig = match sign.get("rawkey") {
+            // "rawkey": a signer that uses these 32 bytes as the signing key directly (not derived from a secret)
+            Some(v) if v.is_array() && !bytes_of(v).is_empty() => hex(&hmac_sha256(&bytes_of(v), &sts)).into_bytes(),
+            _ => oracle.sig_hex(
+                &get_bytes(sign, "secret"),
+                &get_bytes(sign, "kdate"),
+                &get_bytes(sign, "region"),
+                &get_bytes(sign, "service"),
+                &sts,
+            ),
+        };
         let sig = match sign.get("sigmut") {
             Some(m) if m.is_object() => mutate_sig(&sig, m),
             _ => sig,
@@ -954,4 +969,110 @@ pub fn threads_main(cases_path: &str, out_path: &str, nthreads: usize, rounds: u
     }
     w.flush().unwrap();
     println!("threads: {} observations", results.lock().unwrap().len());
+}
+
+type ValOut = Result<(http::request::Parts, Bytes, scratchstack_aws_signature::auth::SigV4AuthenticatorResponse), BoxError>;
+
+/// One validation as a future that owns everything it needs (so several can be in flight at once).
+async fn validate_owned(
+    req: http::Request<Bytes>,
+    region: String,
+    service: String,
+    mut provider: Provider,
+    now: DateTime<Utc>,
+    reqs: Reqs,
+    opts: SignatureOptions,
+) -> ValOut {
+    match &reqs {
+        Reqs::Slice(a, i, p) => {
+            let r = SliceSignedHeaderRequirements::new(a, i, p);
+            sigv4_validate_request(req, &region, &service, &mut provider, now, &r, opts).await
+        }
+        Reqs::Vecr(v) => sigv4_validate_request(req, &region, &service, &mut provider, now, v, opts).await,
+    }
+}
+
+/// `conform interleave <cases> <out>`: consecutive cases are validated two at a time ON ONE THREAD, their futures
+/// polled alternately (A, B, A, B, ...), so that a validation waiting for its key provider is suspended while
+/// another one runs. C18: the outcome of each must be what it is when validated alone.
+pub fn interleave_main(cases_path: &str, out_path: &str) {
+    use std::io::{BufRead, Write};
+    let f = std::fs::File::open(cases_path).expect("open cases");
+    let cases: Vec<Value> = std::io::BufReader::new(f)
+        .lines()
+        .filter_map(|l| l.ok())
+        .filter(|l| !l.trim().is_empty())
+        .map(|l| serde_json::from_str(&l).expect("case"))
+        .collect();
+    let mut w = std::io::BufWriter::new(std::fs::File::create(out_path).expect("create"));
+    let waker = Waker::noop();
+    let mut n = 0usize;
+    for pair in cases.chunks(2) {
+        let mut futs: Vec<(Pin<Box<dyn Future<Output = ValOut>>>, Events, Option<ValOut>)> = Vec::new();
+        let mut ids = Vec::new();
+        for c in pair {
+            let cfg = c.get("cfg").cloned().unwrap_or(json!({}));
+            let script = Script::from_json(c.get("script").unwrap_or(&json!({})));
+            if script.ready_in == u64::MAX || script.pend_in == u64::MAX {
+                continue;
+            }
+            let mut oracle = Oracle {
+                sha: Vec::new(),
+                sig: Vec::new(),
+            };
+            let built = build(c, &mut oracle);
+            let req = match built.request() {
+                Ok(r) => r,
+                Err(_) => continue,
+            };
+            let events: Events = Arc::new(Mutex::new(Vec::new()));
+            let provider = Provider {
+                script: script.clone(),
+                ready_left: script.ready_in,
+                events: events.clone(),
+            };
+            let fut = validate_owned(
+                req,
+                String::from_utf8_lossy(&get_bytes(&cfg, "region")).to_string(),
+                String::from_utf8_lossy(&get_bytes(&cfg, "service")).to_string(),
+                provider,
+                now_of(&cfg),
+                build_reqs(&cfg),
+                options_of(&cfg),
+            );
+            futs.push((Box::pin(fut), events, None));
+            ids.push(c.get("id").cloned().unwrap_or(json!(0)));
+        }
+        let r = guarded(|| {
+            let mut cx = Context::from_waker(waker);
+            for _ in 0..10_000 {
+                let mut all = true;
+                for (fut, _, out) in futs.iter_mut() {
+                    if out.is_none() {
+                        match fut.as_mut().poll(&mut cx) {
+                            Poll::Ready(v) => *out = Some(v),
+                            Poll::Pending => all = false,
+                        }
+                    }
+                }
+                if all {
+                    break;
+                }
+            }
+        });
+        for (k, (_, events, out)) in futs.into_iter().enumerate() {
+            let end = match (&r, out) {
+                (Err(p), _) => end_event(Some(Err(p.clone()))),
+                (Ok(()), None) => end_event(None),
+                (Ok(()), Some(v)) => end_event(Some(Ok(v))),
+            };
+            let d = proj_digest(&end, &prov_snapshot(&events));
+            let ev = json!({"op": "det", "id": ids[k], "who": format!("interleaved#{}", n), "res": get_str(&end, "res"), "proj": d});
+            serde_json::to_writer(&mut w, &ev).unwrap();
+            w.write_all(b"\n").unwrap();
+            n += 1;
+        }
+    }
+    w.flush().unwrap();
+    println!("interleave: {} observations", n);
 }
